@@ -284,16 +284,34 @@ func (e *Expected) renderDir(b *strings.Builder, n *Node, path string, ref *Refe
 
 // ---- classifiers of known-finding classes (predicates over the case) --------
 
-// ClassNegatedClass: some pattern of the list contains a negated bracket
-// expression ("[!...]" or "[^...]"), and the probed path (or some path of the
-// scanned tree) has more than one component, so that the expression can be
-// tried against a '/'.
-const ClassNegatedClass = "negated-class-matches-separator"
+// ClassNegatedClass: some pattern of the list contains a bracket expression
+// that would accept the character '/' if the separator were an ordinary
+// character (a negated expression such as "[!x]", or a range spanning '/' such
+// as "[.-a]"), and the probed path (or some path of the scanned tree) has more
+// than one component, so that the expression can be tried against a '/'.
+const ClassNegatedClass = "class-matches-separator"
 
 func hasNegatedClass(patterns []string) bool {
 	for _, p := range patterns {
-		if strings.Contains(p, "[!") || strings.Contains(p, "[^") {
-			return true
+		rs := []rune(p)
+		for i := 0; i < len(rs); i++ {
+			if rs[i] != '[' {
+				continue
+			}
+			end := -1
+			for j := i + 2; j < len(rs); j++ {
+				if rs[j] == ']' {
+					end = j
+					break
+				}
+			}
+			if end < 0 {
+				break
+			}
+			if matchClass(string(rs[i+1:end]), '/') {
+				return true
+			}
+			i = end
 		}
 	}
 	return false
